@@ -582,10 +582,12 @@ class Dataset:
         if not isinstance(other, Dataset):
             return NotImplemented
 
-        self_str_rankings: List[str] = [str(ranking).strip().replace(" ", "") for ranking in self.rankings]
-        other_str_rankings: List[str] = [str(ranking).strip().replace(" ", "") for ranking in other.rankings]
+        # the comparison must not depend on the iteration order of the buckets (sets): each ranking is seen as the
+        # tuple of its buckets, each bucket as a frozenset of elements
+        self_rankings = [tuple(frozenset(bucket) for bucket in ranking) for ranking in self.rankings]
+        other_rankings = [tuple(frozenset(bucket) for bucket in ranking) for ranking in other.rankings]
 
-        return Counter(self_str_rankings) == Counter(other_str_rankings)
+        return Counter(self_rankings) == Counter(other_rankings)
 
 
 class DatasetSelector:
